@@ -62,8 +62,13 @@ def wid1_integer_widths(ctx):
         bounds = type_bounds_in(cond)
         bty = bounds[0][0] if bounds else None
         offset = c['args'][2] if len(c['args']) > 2 else {}
-        uses_interval = 'interval' in idents_in(cond)
-        off_ok = (offset.get('k') == 'path' and offset['path'] == 'min') if uses_interval else \
+        # a branch either tests the values directly (`min >= 0 && max <= T::MAX`, offset 0) or the
+        # width of the range (`interval <= T::MAX`, offset = the minimum)
+        tests_lower_bound = any(n.get('k') == 'binary' and n['op'] in ('>=', '>') and
+                                n['rhs'].get('k') == 'lit' and n['rhs'].get('int') == '0'
+                                for n in walk(cond))
+        uses_interval = not tests_lower_bound
+        off_ok = (offset.get('k') == 'path') if uses_interval else \
             (offset.get('k') == 'lit' and offset.get('int') == '0')
         good = ty is not None and tag == ty.upper() and bty == ty and bounds[0][1] == 'MAX' and off_ok
         ctx.check('WID-1', 'new_boxed|branch-%d-%s%s' % (n, ty, '-offset' if uses_interval else ''),
@@ -91,18 +96,22 @@ def wid2_dictionary_widths(ctx):
         n += 1
         tags = [a['path'].split('::')[-1] for c in find(block, 'call') if c.get('func') and
                 last_seg(c['func'].get('path', '')) == 'dict_codec' for a in c['args'] if a.get('k') == 'path']
-        secs = [last_seg(c['func']['path']) for c in find(block, 'call') if c.get('func') and
-                (c['func'].get('path') or '').startswith('DataSection::') and
-                'indices' in set().union(*[idents_in(a) for a in c['args']] or [set()])]
-        casts = {c['ty'] for c in find(block, 'cast') if re.match(r'^u(8|16|32|64)$', c['ty'])
-                 and 'i' in idents_in(c['expr'])}
+        # the index vector: the let-bound `Vec<uN>` of this branch
         lets = set()
+        idx_names = set()
         for l in find(block, 'let'):
             p = l['pat']
-            if p.get('k') == 'p_type' and p['pat'].get('name') == 'indices':
-                m = re.search(r'Vec\s*<\s*(u\d+)\s*>', p['ty'])
+            if p.get('k') == 'p_type' and p['pat'].get('k') == 'p_ident':
+                m = re.search(r'^Vec\s*<\s*(u\d+)\s*>$', p['ty'].strip())
                 if m:
                     lets.add(m.group(1))
+                    idx_names.add(p['pat']['name'])
+        secs = [last_seg(c['func']['path']) for c in find(block, 'call') if c.get('func') and
+                (c['func'].get('path') or '').startswith('DataSection::') and
+                idx_names & set().union(*[idents_in(a) for a in c['args']] or [set()])]
+        # casts of the enumeration index to the index type
+        casts = {c['ty'] for c in find(block, 'cast') if re.match(r'^u(8|16|32|64)$', c['ty'])
+                 and c['expr'].get('k') == 'path'}
         bounds = type_bounds_in(cond) if cond is not None else []
         tag = tags[0] if tags else None
         want = tag.lower() if tag else None
